@@ -418,6 +418,15 @@ def fu_value(t):
     n = r_nat_numeral(t)
     if n is not None:
         return ('num', n)
+    h0, args0 = r_head_args(t)
+    if h0[0] == 'const' and h0[1] in ('plus', 'times') and len(args0) == 2:
+        a, b = fu_value(args0[0]), fu_value(args0[1])
+        if a[0] == 'num' and b[0] == 'num':
+            return ('num', a[1] + b[1] if h0[1] == 'plus' else a[1] * b[1])
+        return ('atom', repr(ref.canon(t)))
+    if h0[0] == 'const' and h0[1] == 'Suc' and len(args0) == 1:
+        a = fu_value(args0[0])
+        return ('num', a[1] + 1) if a[0] == 'num' else ('atom', repr(ref.canon(t)))
     if t[0] == 'app':
         f, c = t[1], t[2]
         base, ups = fu_strip(f)
